@@ -22,6 +22,7 @@ type C03Case struct {
 	MemoRules []bool   `json:"memoRules"`
 	Sentence  bool     `json:"sentence"`
 	PreLen    int      `json:"preLen,omitempty"` // > 0: the parsed file follows a file of that length in the file set
+	RegKw     bool     `json:"regKw,omitempty"`  // the terminal 'a' registers a keyword whenever it runs (in both grammars)
 	Wide      int      `json:"wide,omitempty"`   // != 0: the terminal 'b' and the input byte 'b' are this multi-byte rune
 }
 
@@ -36,8 +37,11 @@ type outcome struct {
 	Calls  int
 }
 
+// c03RegKw is set by checkC03 for the duration of one case (all builds of the case share it).
+var c03RegKw bool
+
 func runC03(g *Grammar, in string, memoRules []bool, noMemo bool, probe *Probe, sentence bool, preLen int, wide ...rune) outcome {
-	o0 := BuildOpts{MemoRules: memoRules, NoMemo: noMemo, Probe: probe}
+	o0 := BuildOpts{MemoRules: memoRules, NoMemo: noMemo, Probe: probe, RegKw: c03RegKw}
 	if len(wide) > 0 {
 		o0.Wide = wide[0]
 	}
@@ -86,6 +90,11 @@ func checkC03(ci interface{}, st *Stats) error {
 		}
 		in = widen(in, wide).Lib // both grammars get the same transliterated input
 		st.Class("terminal b is a multi-byte rune")
+	}
+	c03RegKw = c.RegKw
+	defer func() { c03RegKw = false }()
+	if c.RegKw {
+		st.Class("a terminal registers a keyword while parsing")
 	}
 	none := make([]bool, len(g.Rules))
 	pp := NewProbe()
@@ -159,6 +168,7 @@ func init() {
 			// trimming with operands that return fresh nodes (see genRefTrim): RightTrim must then leave
 			// every memoized node alone, and memoized and plain grammar agree
 			o.RefTrims = rapid.IntRange(0, 3).Draw(t, "reftrims") == 0
+			o.Single = rapid.IntRange(0, 3).Draw(t, "single") == 0 // memoized and plain grammar agree whatever Single does with a result
 			if thorough() {
 				o.MaxNT, o.MaxInput = 4, 8
 			}
@@ -206,7 +216,7 @@ func init() {
 			if !o.RefTrims && rapid.IntRange(0, 4).Draw(t, "wide") == 0 {
 				wideRune = int(rapid.SampledFrom([]rune{0x80, 0xe9, 0xff, 0x7ff, 0x800, 0x20ac, 0xfffd, 0x10000, 0x1f600}).Draw(t, "wideRune"))
 			}
-			return &C03Case{G: g, In: GenInput(t, g, o), MemoRules: memo, Sentence: rapid.Bool().Draw(t, "sentence"), PreLen: pre, Wide: wideRune}
+			return &C03Case{G: g, In: GenInput(t, g, o), MemoRules: memo, Sentence: rapid.Bool().Draw(t, "sentence"), PreLen: pre, Wide: wideRune, RegKw: rapid.IntRange(0, 2).Draw(t, "regKw") == 0}
 		},
 		Check: checkC03,
 	})
